@@ -325,6 +325,111 @@ pub fn case_threads(bytes: &[u8], _s: &[u8], ctx: &mut Ctx) -> Result<(), Fail> 
     Ok(())
 }
 
+/// Free-running stress: several threads share ONE debugging recorder and make the first registration of the
+/// same fresh key at the same moment, each updating through the handle it was given; the snapshot taken at
+/// quiescence must show one entry holding every update, and the next one no histogram values.
+fn stress_shared(pr: &PropRun) -> crate::engine::runner::LaneReport {
+    use crate::engine::runner::{LaneReport, Violation};
+    use std::sync::atomic::{AtomicBool, AtomicUsize, Ordering};
+    static SMETA: Metadata<'static> = Metadata::new("c19stress", Level::INFO, None);
+    let start = std::time::Instant::now();
+    let mut rep = LaneReport::named("stress-shared-recorder");
+    let rounds = pr.cfg.cases(6_000, 300_000) as usize;
+    let nthreads = 6usize;
+    let slot: std::sync::RwLock<Option<(DebuggingRecorder, Key, usize)>> = std::sync::RwLock::new(None);
+    let round = AtomicUsize::new(0);
+    let done = AtomicUsize::new(0);
+    let stop = AtomicBool::new(false);
+    let mut bad: Option<(String, String)> = None;
+    std::thread::scope(|s| {
+        for t in 0..nthreads {
+            let (slot, round, done, stop) = (&slot, &round, &done, &stop);
+            s.spawn(move || {
+                let mut seen = 0usize;
+                while !stop.load(Ordering::Acquire) {
+                    let r = round.load(Ordering::Acquire);
+                    if r == seen {
+                        std::hint::spin_loop();
+                        continue;
+                    }
+                    seen = r;
+                    {
+                        let g = slot.read().unwrap();
+                        let (rec, key, kind) = g.as_ref().unwrap();
+                        match kind {
+                            0 => rec.register_counter(key, &SMETA).increment(1),
+                            1 => rec.register_gauge(key, &SMETA).increment(1.0),
+                            _ => rec.register_histogram(key, &SMETA).record(t as f64),
+                        }
+                    }
+                    done.fetch_add(1, Ordering::AcqRel);
+                }
+            });
+        }
+        for r in 0..rounds {
+            let kind = if r % 4 == 3 { r / 4 % 2 } else { 2 };
+            let rec = DebuggingRecorder::new();
+            let snap = rec.snapshotter();
+            let key = Key::from_parts(format!("shared{}", r % 7), vec![metrics::Label::new("k", "v")]);
+            *slot.write().unwrap() = Some((rec, key, kind));
+            done.store(0, Ordering::Release);
+            round.store(r + 1, Ordering::Release);
+            while done.load(Ordering::Acquire) < nthreads {
+                std::hint::spin_loop();
+            }
+            let first = snap.snapshot().into_vec();
+            let second = snap.snapshot().into_vec();
+            let verdict: Result<(), (String, String)> = (|| {
+                if first.len() != 1 {
+                    return Err(("snapshot-entry-count".to_string(), format!("{} threads registered one key on a shared recorder, the snapshot lists {} entries", nthreads, first.len())));
+                }
+                match &first[0].3 {
+                    DebugValue::Counter(v) if kind == 0 => {
+                        if *v != nthreads as u64 {
+                            return Err(("counter-value-wrong".to_string(), format!("{} threads each incremented the shared counter once through the handle their registration returned; the snapshot shows {}", nthreads, v)));
+                        }
+                    }
+                    DebugValue::Gauge(v) if kind == 1 => {
+                        if v.0 != nthreads as f64 {
+                            return Err(("gauge-value-wrong".to_string(), format!("{} threads each added 1 to the shared gauge; the snapshot shows {}", nthreads, v.0)));
+                        }
+                    }
+                    DebugValue::Histogram(vs) if kind == 2 => {
+                        let mut got: Vec<u64> = vs.iter().map(|v| v.0 as u64).collect();
+                        got.sort();
+                        if got != (0..nthreads as u64).collect::<Vec<_>>() {
+                            return Err(("histogram-values-not-exactly-once".to_string(), format!("{} threads each recorded their index once through the handle their (concurrent, first) registration of the key returned; the snapshot holds {:?}", nthreads, got)));
+                        }
+                        if let Some((_, _, _, DebugValue::Histogram(v2))) = second.first() {
+                            if !v2.is_empty() {
+                                return Err(("histogram-value-in-two-snapshots".to_string(), format!("the next snapshot shows {:?} again", v2)));
+                            }
+                        }
+                    }
+                    other => return Err(("snapshot-kind-wrong".to_string(), format!("kind {} registered, snapshot shows {:?}", kind, other))),
+                }
+                Ok(())
+            })();
+            if let Err(e) = verdict {
+                bad = Some(e);
+                break;
+            }
+        }
+        stop.store(true, Ordering::Release);
+    });
+    let mut ctx = Ctx::default();
+    ctx.fingerprint = Some(1);
+    ctx.nontrivial("concurrent-first-registration-on-a-shared-recorder");
+    ctx.desc = Some(format!("{} rounds: {} free-running threads make the first registration of one key (3 of 4 rounds a histogram) on one shared DebuggingRecorder and update through their own handle; two snapshots at quiescence", rounds, nthreads));
+    rep.account(ctx);
+    rep.evaluations = rounds as u64;
+    if let Some((sig, msg)) = bad {
+        rep.violations.push(Violation { lane: "stress-shared-recorder".into(), sig, msg, bytes: vec![], sched: vec![], decoded: "free-running threads (not deterministically replayable)".into() });
+    }
+    rep.wall_s = start.elapsed().as_secs_f64();
+    rep
+}
+
 pub fn run(cfg: &RunCfg, replay: Option<&str>) -> i32 {
     let mut pr = PropRun::new("C19", cfg, RULE);
     pr.register("direct-histories", &case_direct);
@@ -340,6 +445,8 @@ pub fn run(cfg: &RunCfg, replay: Option<&str>) -> i32 {
     let r = run_lane(&c, "C19", &Lane { name: "direct-histories", cases: c.cases(500_000, 15_000_000), max_len: 200, sched_len: 0, workers: 0, f: &case_direct });
     pr.push(r);
     let r = run_lane(&c, "C19", &Lane { name: "local-recorders-on-threads", cases: c.cases(30_000, 1_000_000), max_len: 400, sched_len: 0, workers: 0, f: &case_threads });
+    pr.push(r);
+    let r = stress_shared(&pr);
     pr.push(r);
     pr.finish()
 }
